@@ -8,6 +8,7 @@ import (
 	"verif/proj"
 	"verif/run"
 
+	"oss.terrastruct.com/d2/d2ast"
 	"oss.terrastruct.com/d2/d2graph"
 	"oss.terrastruct.com/d2/d2parser"
 )
@@ -46,7 +47,38 @@ func init() {
 	})
 }
 
+// c06Bare reports whether s may be written unquoted without any escaping: words of
+// [A-Za-z0-9_] joined by single spaces or single dashes, optionally one trailing dash; not a
+// reserved attribute/board keyword (unquoted those are keywords, not names). The value
+// literals null/true/false/suspend are allowed: as a key they are ordinary names.
+func c06Bare(s string) bool {
+	if s == "" || s == "_" {
+		return false
+	}
+	prevSep := true
+	for i, c := range s {
+		switch {
+		case c >= 'a' && c <= 'z', c >= 'A' && c <= 'Z', c >= '0' && c <= '9', c == '_':
+			prevSep = false
+		case c == ' ' || c == '-':
+			if prevSep || (c == ' ' && i == len(s)-1) {
+				return false
+			}
+			prevSep = true
+		default:
+			return false
+		}
+	}
+	if _, ok := d2ast.ReservedKeywords[strings.ToLower(s)]; ok {
+		return false
+	}
+	return true
+}
+
 func c06Key(r *gen.R, s string) string {
+	if c06Bare(s) && r.P(0.5) {
+		return s
+	}
 	if !strings.ContainsAny(s, "\n") && r.P(0.3) {
 		return gen.SingleQuote(s)
 	}
@@ -66,6 +98,11 @@ func genC06(seed int64, tier string, emit func(run.Case)) {
 			switch q.Intn(6) {
 			case 0:
 				names = append(names, gen.Name(q, false, 8))
+			case 2:
+				// names that are legal unquoted but need care: trailing dash, inner dash or
+				// space, value literals in any case
+				names = append(names, gen.Pick(q, []string{gen.Name(q, false, 6) + "-", gen.Name(q, false, 4) + "-" + gen.Name(q, false, 4),
+					gen.Name(q, false, 4) + " " + gen.Name(q, false, 4), q.RandCase("null"), q.RandCase("true"), q.RandCase("false"), q.RandCase("suspend"), "x-1", "1"}))
 			case 1:
 				if len(names) > 0 {
 					names = append(names, q.RandCase(gen.Pick(q, names))) // case variant
@@ -82,12 +119,33 @@ func genC06(seed int64, tier string, emit func(run.Case)) {
 		}
 		var sb strings.Builder
 		key := func() string { return c06Key(q, gen.Pick(q, names)) }
-		path := func() string {
-			p := key()
-			for q.P(0.3) {
-				p += "." + key()
+		// an unquoted name ending in "-" swallows a directly following ":" or "." (the
+		// parser's dash look-ahead), so such a spelling is only used where white space follows
+		notDash := func() string {
+			for {
+				if k := key(); !strings.HasSuffix(k, "-") {
+					return k
+				}
 			}
-			return p
+		}
+		path := func() string {
+			var segs []string
+			segs = append(segs, key())
+			for q.P(0.3) {
+				segs = append(segs, key())
+			}
+			for i := range segs[:len(segs)-1] {
+				if strings.HasSuffix(segs[i], "-") {
+					segs[i] = notDash()
+				}
+			}
+			return strings.Join(segs, ".")
+		}
+		colon := func(p string) string {
+			if strings.HasSuffix(p, "-") {
+				return p + " :"
+			}
+			return p + ":"
 		}
 		var body func(d int)
 		body = func(d int) {
@@ -102,20 +160,20 @@ func genC06(seed int64, tier string, emit func(run.Case)) {
 					sb.WriteString(path() + " -> " + path() + " -> " + path() + "\n")
 				case 4:
 					if d < 3 {
-						sb.WriteString(key() + ": {\n")
+						sb.WriteString(colon(key()) + " {\n")
 						body(d + 1)
 						sb.WriteString(strings.Repeat("  ", d) + "}\n")
 					} else {
 						sb.WriteString(key() + "\n")
 					}
 				default:
-					sb.WriteString(path() + ": " + gen.Quote(gen.Name(q, true, 8)) + "\n")
+					sb.WriteString(colon(path()) + " " + gen.Quote(gen.Name(q, true, 8)) + "\n")
 				}
 			}
 		}
 		body(0)
 		if q.P(0.15) {
-			sb.WriteString("layers: {\n  " + key() + ": {\n")
+			sb.WriteString("layers: {\n  " + colon(key()) + " {\n")
 			body(2)
 			sb.WriteString("  }\n}\n")
 		}
